@@ -435,3 +435,19 @@ Proof.
   intros H I. rewrite (aromatic_rings_spec g sssr l H) in I. apply filter_In in I. destruct I as [I A]. split; [exact I|].
   unfold is_arom in A. destruct (ring_aromatic g r) as [[|]|]; try discriminate. reflexivity.
 Qed.
+
+(* ---------- the counts agree with an accepted ring list ---------- *)
+Theorem rings_count_agrees g rs : is_cycle_basis g rs = true -> rings_count g = Ok (Z.of_nat (length rs)).
+Proof.
+  intros H. pose proof (basis_checker_sound g rs H) as [W [_ [_ N]]]. rewrite (rings_count_ok g W). unfold cyclomatic. rewrite N. reflexivity.
+Qed.
+
+(* every atom of an accepted ring list is an atom of the graph with at least two neighbours, and it is marked in_ring *)
+Theorem accepted_ring_atoms g rs r v : is_cycle_basis g rs = true -> In r rs -> In v r ->
+  In v (keys g) /\ (2 <= length (gnbrs g v))%nat /\ atom_in_ring rs v = true.
+Proof.
+  intros H Hr Hv. pose proof (basis_checker_sound g rs H) as [W [C _]]. rewrite Forall_forall in C. specialize (C r Hr).
+  pose proof (cycle_degree g r v C Hv) as D. split; [|split; [exact D|]].
+  - destruct (gnbrs g v) as [|x l] eqn:E; [cbn in D; lia|]. apply (adjacent_key g v x). rewrite E. left. reflexivity.
+  - apply atom_in_ring_spec. exists r. tauto.
+Qed.
